@@ -331,7 +331,7 @@ func (repo *Repository) ProcessHeader(ctx context.Context, header *wire.BlockHea
 	repo.Lock()
 	defer repo.Unlock()
 
-	if !repo.disableDifficulty && !header.WorkIsValid() {
+	if !repo.disableDifficulty && !workIsValid(header) {
 		return ErrNotEnoughWork
 	}
 
